@@ -122,8 +122,8 @@ func requirement(w *World, d *Deployed, c *CallInfo) wReq {
 		}
 		return r
 	}
-	// main-chain governance: the keys stored in NeoFS (single, or their
-	// multi-signature) or the chain's Alphabet account — see §10.3 observation
+	// main-chain governance (cheque, alphabetUpdate, setConfig, candidate
+	// removal) — see §10.3 observation
 	governance := func() wReq {
 		var nf *Deployed
 		for _, x := range w.C {
